@@ -98,7 +98,7 @@ func VerifC10Service() {
 		case 0: // arbitrary bytes
 			maxL := 6
 			if vrt_Tier() > 0 {
-				maxL = 10
+				maxL = 6
 			}
 			vrt_ConnPushRead(conn, vrt_Bytes("raw", 1+vrt_Choose("rawLen", maxL)))
 		case 1: // a valid frame with adversarial header fields and an arbitrary short body
@@ -120,7 +120,7 @@ func VerifC10Service() {
 			vNoSpecialChecksum(f)
 			b := f.bytes()
 			at := []int{1, len(b) / 2, len(b) - 1}[vrt_Choose("halfAt", 3)]
-			if vrt_Tier() > 0 {
+			if vrt_Tier() > 1 {
 				at = 1 + vrt_Choose("halfAtT", len(b)-1)
 			}
 			vrt_ConnPushRead(conn, b[:at])
